@@ -697,7 +697,45 @@ def c05_15(ctx):
     return shared_obligations(ctx, ["tx", "witness", "taproot", "phash"], "the result would depend on something other than the arguments and the object's current state")
 
 
+def c05_16(ctx):
+    """the digest each multisig signature is verified against is the digest for *that signature's* hash type (shared with C06.16): the
+    message a hash type selects is what this property specifies, and the verifier must ask for it per signature"""
+    from rules.C06 import c06_16
+    return c06_16(ctx)
+
+
+def c05_17(ctx):
+    """BIP341 tapleaf hash inside the script-path message: the leaf version is the control block's first byte *without its parity bit*.
+    Witness.tap_leaf must take it from the parsed control block (`tapleaf_version`, decided by C12) or mask it with 0xfe itself"""
+    spec = "witness:Witness.tap_leaf"
+    mod, fn = rl.get(ctx, spec)
+    out = []
+    from sa.cfg import cfg_of as _cfg
+    cfg = _cfg(fn)
+    calls = [(n, c) for n, c in rl.find_calls(fn, "TapLeaf")]
+    if not calls:
+        raise AnalysisError("Witness.tap_leaf: TapLeaf(...) not found")
+    for n, c in calls:
+        args = list(c.args) + [k.value for k in c.keywords]
+        if len(args) < 2:
+            out.append(ctx.err(spec, "TapLeaf is built without a leaf version", c, mod))
+            continue
+        v = expand(fn, n.id, args[1], depth=4)
+        o = origins(fn, n.id, args[1])
+        masked = any(isinstance(b, ast.BinOp) and isinstance(b.op, ast.BitAnd) and any(isinstance(x, ast.Constant) and x.value == 0xFE for x in (b.left, b.right)) for b in ast.walk(v))
+        if "attrname:tapleaf_version" in o or masked:
+            out.append(ctx.ok(spec, "leaf version = %s" % ("control block's tapleaf_version" if not masked else "first byte & 0xfe"), c, mod, key="leaf-version-masked"))
+        elif any(isinstance(x, ast.Subscript) and isinstance(x.slice, ast.Constant) and x.slice.value == 0 for x in ast.walk(v)):
+            out.append(ctx.bad(spec, "the leaf version is `%s`, the control block's first byte with its parity bit: for a control block c1 (odd output key) the tapleaf hash in the "
+                                     "BIP341 message is computed with version c1 instead of c0" % ast.unparse(v)[:80], c, mod, key="leaf-version-masked"))
+        else:
+            out.append(ctx.err(spec, "where the leaf version `%s` comes from is not recognised" % ast.unparse(v)[:80], c, mod))
+    return out
+
+
 OBLIGATIONS = [
+    ("C05.16", "PER-ITERATION digest (shared C06.16)", c05_16),
+    ("C05.17", "DATAFLOW mask", c05_17),
     ("C05.15", "SHARED", c05_15),
     ("C05.14", "SET-ORDER", c05_14),
     ("C05.13", "MEMO", c05_13),
